@@ -66,6 +66,11 @@ def check_case(case):
             info2 = _check_on(S, case, first=False)
             info["classes"] = sorted(set(info["classes"]) | {"after-membership-swap"})
             info["nt"] = info["nt"] or info2["nt"]
+        if case["mode"] % 2 == 0 and case["t"].get("pad", 0) < 100:
+            # the searched world copied (deepcopy / pickle / nrpickler) and searched again
+            S.replace_by_copy(case["sought"])
+            _check_on(S, case, first=False)
+            info["classes"] = sorted(set(info["classes"]) | {"on-copy-of-searched-graph"})
         return info
 
 
